@@ -151,10 +151,9 @@ def main(tier):
     plan = [({"P": 67, "bitlength": 2, "resolution": 1}, False, None),
             ({"P": 13, "bitlength": 2, "resolution": 1}, True, None)]
     if tier != "quick":
-        plan += [({"P": 67, "bitlength": 2, "resolution": 1}, True, 2),
-                 ({"P": 257, "bitlength": 3, "resolution": 1}, False, None),
-                 ({"P": 17, "bitlength": 2, "resolution": 2}, True, None),
-                 ({"P": 1031, "bitlength": 4, "resolution": 2}, False, 12)]
+        plan += [({"P": 67, "bitlength": 2, "resolution": 1}, True, 1),
+                 ({"P": 257, "bitlength": 3, "resolution": 1}, False, 8),
+                 ({"P": 17, "bitlength": 2, "resolution": 2}, True, 12)]
     for cfg, hv, cap in plan:
         collect(run, cfg, tier, hv, cap)
         if run.violations:
